@@ -20,6 +20,8 @@ CLAIMED = {
          "mutual exclusion of the backend lock is assumed (Lock model); FairLock is a BOUNDED stand-in (drivers/fair_lock.py, 6318 schedules); AsyncTCPNetworkClient.send_packet / the blocking clients' threading locks are not under contract; from discipline to 'contiguous on the wire' is the written critical-section argument"),
  "C14": ("§4 C14", "On every exit path - normal, failing, and CancelledError delivered at any suspension point - of aclose_forcefully, the stapled close helper, AsyncTLSStreamTransport.aclose/wrap, the three stream endpoints, the datagram endpoint, the low-level server client, the high-level server-side client and the async TCP/UDP clients, the wrapped transport's close has been requested (ghost close_requested); both halves of a stapled transport are closed even if the first close fails.",
          "abstract transport aclose() requests the close on entry (assumed); cancellation only at suspension points of the backend models; cancel scopes swallow only their own body's CancelledError; lock/guard coupling is a rely invariant; the asyncio socket adapter's aclose and promptness of a second close are not covered; KNOWN FINDING F7 (three call sites) is reported, not repaired"),
+ "C15": ("§4 C15", "Low-level stream server, both receive paths: _RequestReceiver.next / _BufferedRequestReceiver.next return SendAction(r) only when the parser completed exactly the next request r of the pending bytes (consumer drained before any read), a ThrowAction for a parse error at its position costing exactly that frame, and a ThrowAction for a timeout / cancellation / transport failure only when no complete request is buffered, losing nothing; AsyncStreamServer.__client_coroutine (plain and buffered variants) hands every action to the handler generator exactly once (ghost counters delivered == actions as loop invariant and on every exit), leaves no generator running, closes the live generator exactly once and requests the connection close on every exit.",
+         "the handler is any async generator following the HandlerGen model (each resumption yields a timeout, finishes or raises any BaseException; aclose on a finished generator is a no-op); AsyncExitStack follows a small LIFO model; anext_without_asyncgen_hook's hook juggling is replaced by a model; a GeneratorExit caught by the receiver closes the generator instead of being sent (counted so); the high-level generator-restart wrapper (servers/misc.py) is covered by a separate contract where registered, otherwise not covered"),
  "C16": ("§4 C16", "Atomic-section invariants of the per-client state of the datagram server: A (no task => empty queue) holds at every suspension point of the listener's handler and after the task-done hook, which restarts a task exactly when datagrams are waiting; B: a task is marked pending only from the no-task state (a second one is refused); C: the queue is FIFO - push appends at the tail before its first suspension and does not suspend for an idle client, pops take the head.",
          "the listener calls the handler in arrival order and the task group eventually runs started tasks (assumed; 'eventually handled' is not claimed, only 'never dropped'); __client_coroutine / __client_coroutine_inner_loop (async-generator plumbing) are assumed contracts; the condition variable, weak caches and task group follow small models"),
  "C19": ("§4 C19", "Socket ownership: every exit of _create_connection_impl (normal, all attempts failed, cancelled at the await, unexpected BaseException from socket()/bind()/setblocking()) leaves exactly the returned socket open (loop invariants on the count of open sockets); try_connect hands its socket over as the winner or closes it, under the rely condition that concurrent attempts only set a winner they own, and signals completion on every exit.",
